@@ -301,8 +301,59 @@ let process_tattrs line =
     | o -> failwith ("op " ^ o) in
   id ^ " " ^ obs ^ "\n"
 
+(* round 5: views (DiffViews.v) *)
+let parse_schema_v () =
+  let s = parse_schema () in
+  let nv = next_int () in
+  let vs = times nv (fun () ->
+    let name = next_str () in
+    let def = next_str () in
+    let mat = next_bool () in
+    let nc = next_int () in
+    let cols = times nc (fun () -> let n = next_str () in let c = next_opt () in (n, c)) in
+    let ni = next_int () in
+    let idx = times ni parse_idx in
+    { v_name = name; v_def = def; v_mat = mat; v_cols = cols; v_idx = idx }) in
+  { sv_schema = s; sv_views = vs }
+
+let show_svchange = function
+  | ST c -> show_schange c
+  | SV (AddView (n, m)) -> "+V(" ^ raw n ^ ":" ^ (if m then "1" else "0") ^ ")"
+  | SV (DropView (n, m)) -> "-V(" ^ raw n ^ ":" ^ (if m then "1" else "0") ^ ")"
+  | SV (ModifyView (n, m, cs)) -> "~V(" ^ raw n ^ ":" ^ (if m then "1" else "0") ^ ")" ^ show_subs cs
+
+(* <id> V <dialect> <mask> <schema_v> <schema_v> *)
+let process_views line =
+  toks := Array.of_list (Stdlib.List.filter (fun s -> s <> "") (String.split_on_char ' ' line));
+  pos := 0;
+  let id = next () in
+  let _op = next () in
+  let dialect = next () in
+  let mask = next_int () in
+  let from = parse_schema_v () in
+  let to_ = parse_schema_v () in
+  let vskip = function
+    | VtAddView -> mask land 8192 <> 0
+    | VtDropView -> mask land 16384 <> 0
+    | VtModifyView -> mask land 32768 <> 0
+    | VtTag t -> skip_of_mask mask t in
+  let sd = match dialect with
+    | "sqlite" -> sqlite_schema_diff_v
+    | "mysql" -> mysql_schema_diff_v_v (my_variant "default")
+    | "postgres" -> pg_schema_diff_v_ns []
+    | d -> failwith ("dialect " ^ d) in
+  let obs = match sd vskip from to_ with
+    | None -> "err"
+    | Some [] -> "[]"
+    | Some cs -> String.concat ";" (Stdlib.List.map show_svchange cs) in
+  id ^ " " ^ obs ^ "\n"
+
 let () =
   let dialect = if Array.length Sys.argv > 1 then Sys.argv.(1) else "sqlite" in
+  if dialect = "views" then begin
+    (try while true do let l = input_line stdin in if l <> "" then print_string (process_views l) done with End_of_file -> ());
+    exit 0
+  end;
   if dialect = "tattrs" then begin
     (try while true do let l = input_line stdin in if l <> "" then print_string (process_tattrs l) done with End_of_file -> ());
     exit 0
